@@ -33,6 +33,21 @@ class AwError(Exception):
         self.c = c
 
 
+class AwRuntimeError(AwError, RuntimeError):
+    """the awaitable's own exception may belong to any family, e.g. be a RuntimeError"""
+
+
+class AwLookupError(AwError, KeyError):
+    pass
+
+
+class AwTimeoutError(AwError, TimeoutError):
+    pass
+
+
+EXC = {'plain': AwError, 'runtime': AwRuntimeError, 'lookup': AwLookupError, 'timeout': AwTimeoutError}
+
+
 def execute(sc):
     A = _A
     import gc
@@ -87,7 +102,7 @@ def execute(sc):
             if dur > 0:
                 await asyncio.sleep(dur)
             if aw.get('out') == 'exc':
-                raise AwError(c)
+                raise EXC[aw.get('exccls', 'plain')](c)
             return ('val', c)
         kind = aw.get('kind', 'coro')
         if kind == 'donefut':
@@ -102,7 +117,7 @@ def execute(sc):
             def resolve():
                 ctl.log('AwEval', c=c, thr=ctl.me_name(), loop=loop_for_objects.vname)
                 if aw.get('out') == 'exc':
-                    fut.set_exception(AwError(c))
+                    fut.set_exception(EXC[aw.get('exccls', 'plain')](c))
                 else:
                     fut.set_result(('val', c))
             loop_for_objects.call_later(dur, resolve)
@@ -115,7 +130,7 @@ def execute(sc):
         if cs['aw'].get('kind') == 'donefut':
             f = T.create_future()
             if cs['aw'].get('out') == 'exc':
-                f.set_exception(AwError(cs['c']))
+                f.set_exception(EXC[cs['aw'].get('exccls', 'plain')](cs['c']))
             else:
                 f.set_result(('val', cs['c']))
             pre[cs['c']] = f
